@@ -88,6 +88,44 @@ type hookCall struct {
 	page   *bo.PageBox
 }
 
+type stallPanic struct{ msg string }
+
+// renderWatched renders with this check's own page-loop hook: it records every iteration (for the
+// cross-check of the pages made against the pages returned) and applies the progress rule of
+// DESIGN §4: the same resume point, pending counts and page kind on 8 consecutive pages means the
+// layout does not advance; the render is then aborted and reported (a logical-step criterion).
+func renderWatched(o wr.Opts, calls *[]hookCall) (r *wr.Rendered, stall string, err error) {
+	last, repeats := "", 0
+	layout.VerifPageHook = func(index int, resumeAt string, oof, fn int, page *bo.PageBox) {
+		*calls = append(*calls, hookCall{index, resumeAt, page})
+		if resumeAt == "nil" && fn == 0 {
+			last, repeats = "", 0
+			return
+		}
+		state := sprintf("%s|%d|%d|%v|%s", resumeAt, oof, fn, page.PageType.Blank, page.PageType.Name)
+		if state != last {
+			last, repeats = state, 0
+			return
+		}
+		repeats++
+		if repeats >= 8 {
+			panic(stallPanic{sprintf("no progress for %d consecutive pages (page index %d): resume point %s, blank %v", repeats+1, index, resumeAt, page.PageType.Blank)})
+		}
+	}
+	defer func() {
+		layout.VerifPageHook = nil
+		if p := recover(); p != nil {
+			if sp, ok := p.(stallPanic); ok {
+				stall = sp.msg
+				return
+			}
+			panic(p)
+		}
+	}()
+	r, err = wr.Render(o)
+	return r, "", err
+}
+
 func near(a, b float64) bool {
 	return math.Abs(a-b) <= 0.02+1e-4*math.Max(math.Abs(a), math.Abs(b))
 }
@@ -122,15 +160,15 @@ func check(raw json.RawMessage) fw.Result {
 		return fw.Result{Verdict: fw.Inconclusive, Msg: err.Error()}
 	}
 	var calls []hookCall
-	layout.VerifPageHook = func(index int, resumeAt string, oof, fn int, page *bo.PageBox) {
-		calls = append(calls, hookCall{index, resumeAt, page})
-	}
-	defer func() { layout.VerifPageHook = nil }()
 	var user []string
 	if in.User != "" {
 		user = []string{in.User}
 	}
-	r, err := wr.Render(wr.Opts{HTML: in.HTML, UserCSS: user, Engine: in.Engine, Fonts: fonts, NoWrite: true})
+	r, stall, err := renderWatched(wr.Opts{HTML: in.HTML, UserCSS: user, Engine: in.Engine, Fonts: fonts, NoWrite: true, NoProgressMonitor: true}, &calls)
+	if stall != "" {
+		res.Fail("page-loop-stalled", stall)
+		return res
+	}
 	if err != nil {
 		return fw.Result{Verdict: fw.Inconclusive, Msg: "render: " + err.Error()}
 	}
